@@ -403,3 +403,19 @@ Definition latest (l : list str) : res (option str) :=
   | [] => Ok None
   | x :: r => match latest_from x r with Ok m => Ok (Some m) | Err e => Err e end
   end.
+
+(* ---------------------------------------------------------------- the names the theorems speak about *)
+
+(* the alphabet on which the model is claimed faithful *)
+Definition wf_char (c : ascii) : bool :=
+  is_alpha c || is_digit c || is_sep c || ascii_eqb c c_minus || ascii_eqb c c_plus.
+Definition wf_name (v : str) : bool := forallb wf_char v.
+
+(* accepted names: over the alphabet, split without error, no plus sign left in the primary
+   part (a plus sign there would be interpolated into a regular expression) *)
+Definition accepts (v : str) : bool :=
+  wf_name v &&
+  match split_version v with
+  | Ok (p, _, _) => negb (mem_ascii c_plus p)
+  | Err _ => false
+  end.
